@@ -15,6 +15,7 @@ import (
 	sentinel "github.com/alibaba/sentinel-golang/api"
 	"github.com/alibaba/sentinel-golang/core/base"
 	"github.com/alibaba/sentinel-golang/core/flow"
+	"github.com/alibaba/sentinel-golang/core/hotspot"
 	"github.com/alibaba/sentinel-golang/core/isolation"
 
 	"verif/coop"
@@ -27,14 +28,15 @@ import (
 type mon struct {
 	inside    map[int]bool // workers between pre-check and end of stat phase
 	maxInside int
-	// tokens (C02) / entries (C04) recorded by the statistic phase
-	recorded int64
+	// tokens (C02) / entries (C04, C06 per argument value) recorded by the statistic phase
+	recorded map[string]int64
 	// admitted by the rule-check phase but statistic phase not yet run
-	pending int64
+	pending map[string]int64
 	peak    int64
 	// per worker: value of recorded/pending when its rule check ran (worker woke from pre-check)
 	snapRec, snapPend map[int]int64
-	amount            map[int]int64 // what the current request of worker w adds when admitted
+	amount            map[int]int64  // what the current request of worker w adds when admitted
+	val               map[int]string // argument value of the current request of worker w ("" for C02 / C04)
 }
 
 var M *mon
@@ -54,8 +56,8 @@ func (preSlot) Check(ctx *base.EntryContext) *base.TokenResult {
 	}
 	coop.Yield("pre-check")
 	// the rule checks of this request run now, atomically w.r.t. the other workers
-	M.snapRec[w] = M.recorded
-	M.snapPend[w] = M.pending
+	M.snapRec[w] = M.recorded[M.val[w]]
+	M.snapPend[w] = M.pending[M.val[w]]
 	return nil
 }
 
@@ -68,7 +70,7 @@ func (postSlot) Check(ctx *base.EntryContext) *base.TokenResult {
 		return nil
 	}
 	// reached only when no rule-check slot blocked: the request is admitted
-	M.pending += M.amount[w]
+	M.pending[M.val[w]] += M.amount[w]
 	coop.Yield("between-check-and-stat")
 	return nil
 }
@@ -81,10 +83,11 @@ func (afterStat) OnEntryPassed(ctx *base.EntryContext) {
 	if w < 0 {
 		return
 	}
-	M.pending -= M.amount[w]
-	M.recorded += M.amount[w]
-	if M.recorded > M.peak {
-		M.peak = M.recorded
+	v := M.val[w]
+	M.pending[v] -= M.amount[w]
+	M.recorded[v] += M.amount[w]
+	if M.recorded[v] > M.peak {
+		M.peak = M.recorded[v]
 	}
 	delete(M.inside, w)
 }
@@ -94,14 +97,16 @@ func (afterStat) OnEntryBlocked(ctx *base.EntryContext, be *base.BlockError) {
 	}
 }
 func (afterStat) OnCompleted(ctx *base.EntryContext) {
-	if coop.Me() >= 0 && prop == "C04" {
-		M.recorded--
+	if coop.Me() >= 0 && prop != "C02" {
+		v, _ := ctx.Input.Attachments["val"].(string)
+		M.recorded[v]--
 	}
 }
 
 type req struct {
 	Batch uint32 `json:"b"`
-	Exit  bool   `json:"exit"` // C04: exit the entry afterwards (after a yield)
+	Exit  bool   `json:"exit"`          // C04 / C06: exit the entry afterwards (after a yield)
+	Val   string `json:"val,omitempty"` // C06: the hot-parameter value
 }
 
 type caseDesc struct {
@@ -120,21 +125,36 @@ var caseNo int
 func genCase(rng *rand.Rand) *caseDesc {
 	c := &caseDesc{}
 	k := 2 + rng.Intn(3)
-	if prop == "C02" {
+	switch prop {
+	case "C02":
 		c.T = vk.PickF(rng, 1, 2, 3, 3.5, 5, 8)
-	} else {
+	case "C06":
+		c.T = float64(vk.PickI(rng, 1, 2, 2, 3))
+	default:
 		c.T = float64(vk.PickI(rng, 1, 2, 3, 4, 6))
 	}
 	c.Pre = int64(rng.Intn(int(c.T) + 1))
+	if prop == "C06" {
+		c.Pre = int64(rng.Intn(int(c.T))) // warm-up entries for value "a", held until a worker releases them
+	}
 	for w := 0; w < k; w++ {
 		var rs []req
-		for i, n := 0, 1+rng.Intn(2); i < n; i++ {
+		nreq := 1 + rng.Intn(2)
+		if prop == "C06" {
+			nreq = 1 + rng.Intn(3)
+		}
+		for i := 0; i < nreq; i++ {
 			r := req{Batch: 1}
 			if prop == "C02" {
 				r.Batch = vk.PickU32(rng, 1, 1, 1, 2, 3)
 			} else {
 				r.Batch = vk.PickU32(rng, 1, 1, 1, 1, 2)
 				r.Exit = rng.Intn(2) == 0
+				if prop == "C06" {
+					r.Batch = 1
+					r.Val = vk.PickS(rng, "a", "a", "a", "b")
+					r.Exit = rng.Intn(3) != 0
+				}
 			}
 			rs = append(rs, r)
 		}
@@ -144,11 +164,11 @@ func genCase(rng *rand.Rand) *caseDesc {
 }
 
 type outcome struct {
-	w, i            int
-	admitted        bool
-	rec, pend, amt  int64
-	blockType       base.BlockType
-	bothOrNeither   bool
+	w, i           int
+	admitted       bool
+	rec, pend, amt int64
+	blockType      base.BlockType
+	bothOrNeither  bool
 }
 
 // execute runs the case under the chooser and returns the outcomes in completion order.
@@ -158,15 +178,30 @@ func execute(c *caseDesc, ch coop.Chooser) (*coop.Result, []outcome, string) {
 	if prop == "C02" {
 		flow.LoadRules([]*flow.Rule{{ID: "r", Resource: res, TokenCalculateStrategy: flow.Direct, ControlBehavior: flow.Reject, Threshold: c.T}})
 		defer flow.ClearRules()
+	} else if prop == "C06" {
+		hotspot.LoadRules([]*hotspot.Rule{{ID: "r", Resource: res, MetricType: hotspot.Concurrency, ParamIndex: 0, Threshold: int64(c.T)}})
+		defer hotspot.ClearRules()
 	} else {
 		isolation.LoadRules([]*isolation.Rule{{ID: "r", Resource: res, MetricType: isolation.Concurrency, Threshold: uint32(c.T)}})
 		defer isolation.ClearRules()
 	}
-	M = &mon{inside: map[int]bool{}, snapRec: map[int]int64{}, snapPend: map[int]int64{}, amount: map[int]int64{}}
+	M = &mon{inside: map[int]bool{}, snapRec: map[int]int64{}, snapPend: map[int]int64{}, amount: map[int]int64{}, val: map[int]string{},
+		recorded: map[string]int64{}, pending: map[string]int64{}}
+	entryOpts := func(r req) []sentinel.EntryOption {
+		o := []sentinel.EntryOption{sentinel.WithSlotChain(chain), sentinel.WithBatchCount(r.Batch)}
+		if prop == "C06" {
+			o = append(o, sentinel.WithArgs(r.Val), sentinel.WithAttachment("val", r.Val))
+		}
+		return o
+	}
+	preVal := ""
+	if prop == "C06" {
+		preVal = "a"
+	}
 	// sequential warm-up outside the scheduler (coop.Me() == -1: the monitor slots stay passive)
 	var held []*base.SentinelEntry
 	for i := int64(0); i < c.Pre; i++ {
-		e, b := sentinel.Entry(res, sentinel.WithSlotChain(chain))
+		e, b := sentinel.Entry(res, entryOpts(req{Batch: 1, Val: preVal})...)
 		if b != nil {
 			return nil, nil, "warm-up request blocked"
 		}
@@ -176,7 +211,7 @@ func execute(c *caseDesc, ch coop.Chooser) (*coop.Result, []outcome, string) {
 			held = append(held, e)
 		}
 	}
-	M.recorded = c.Pre
+	M.recorded[preVal] = c.Pre
 	M.peak = c.Pre
 	var outs []outcome
 	fns := make([]func(), len(c.Workers))
@@ -190,12 +225,19 @@ func execute(c *caseDesc, ch coop.Chooser) (*coop.Result, []outcome, string) {
 					amt = int64(r.Batch)
 				}
 				M.amount[w] = amt
-				e, b := sentinel.Entry(res, sentinel.WithSlotChain(chain), sentinel.WithBatchCount(r.Batch))
+				M.val[w] = r.Val
+				e, b := sentinel.Entry(res, entryOpts(r)...)
 				o := outcome{w: w, i: i, admitted: b == nil, rec: M.snapRec[w], pend: M.snapPend[w], amt: int64(r.Batch), bothOrNeither: (e == nil) == (b == nil)}
 				if b != nil {
 					o.blockType = b.BlockType()
 				}
 				outs = append(outs, o)
+				if prop == "C06" && len(held) > 0 && w == 0 {
+					coop.Yield("pre-release")
+					h := held[len(held)-1]
+					held = held[:len(held)-1]
+					h.Exit()
+				}
 				if e != nil {
 					if prop == "C02" || r.Exit {
 						coop.Yield("pre-exit")
@@ -262,6 +304,11 @@ func check(c *caseDesc, r *coop.Result, outs []outcome) {
 		want := base.BlockTypeFlow
 		if prop == "C04" {
 			want = base.BlockTypeIsolation
+		} else if prop == "C06" {
+			want = base.BlockTypeHotSpotParamFlow
+		}
+		if prop == "C06" {
+			need = 1
 		}
 		if !o.admitted && o.blockType != want {
 			run.Violation(prop+"/coop:block-type", fmt.Sprintf("blocked with %s", o.blockType), c)
@@ -281,7 +328,7 @@ func check(c *caseDesc, r *coop.Result, outs []outcome) {
 	} else {
 		if float64(M.peak) > c.T+float64(k-1) {
 			c.Note = fmt.Sprintf("peak in-flight %d, threshold %v, k_inside=%d", M.peak, c.T, k)
-			run.Violation("C04/coop:inflight-above-N+k-1", c.Note, c)
+			run.Violation(prop+"/coop:inflight-above-N+k-1", c.Note, c)
 			return
 		}
 	}
@@ -298,7 +345,7 @@ func check(c *caseDesc, r *coop.Result, outs []outcome) {
 func main() {
 	sx.Quiet()
 	prop = os.Getenv("VERIF_PROP")
-	if prop != "C04" {
+	if prop != "C04" && prop != "C06" {
 		prop = "C02"
 	}
 	run = vk.Start(prop, "coop")
